@@ -184,6 +184,55 @@ func c03(c *Ctx) {
 	r.Floor("C03.K2", 50)
 	r.Floor("C03.K3", 40)
 
+	// K3c: the module's own writer-side converters encode the whole value: every return of config.(HexString).String and
+	// config.(Duration).String is one encoding call applied to the receiver itself (not to a part of it)
+	for _, name := range []string{"config.(HexString).String", "config.(Duration).String"} {
+		fi := c.P.Func(name)
+		if fi == nil || fi.Body() == nil || fi.Decl == nil || fi.Decl.Recv == nil || len(fi.Decl.Recv.List) == 0 || len(fi.Decl.Recv.List[0].Names) == 0 {
+			continue
+		}
+		info := fi.Info()
+		recv := info.Defs[fi.Decl.Recv.List[0].Names[0]]
+		okAll, n := true, 0
+		for _, rv := range c.Graph(fi).Returns() {
+			rs := rv.Node.(*ast.ReturnStmt)
+			if len(rs.Results) != 1 {
+				continue
+			}
+			n++
+			whole := false
+			if call, ok := ast.Unparen(rs.Results[0]).(*ast.CallExpr); ok {
+				cands := append([]ast.Expr{}, call.Args...)
+				if se, isSel := ast.Unparen(call.Fun).(*ast.SelectorExpr); isSel {
+					if _, isMethod := info.Selections[se]; isMethod {
+						cands = append(cands, se.X) // time.Duration(d).String(): the receiver of the encoding method
+					}
+				}
+				for _, a := range cands {
+					a = ast.Unparen(a)
+					// the receiver, possibly through type conversions
+					for {
+						cv, isCall := a.(*ast.CallExpr)
+						if !isCall || len(cv.Args) != 1 {
+							break
+						}
+						if tv, okT := info.Types[cv.Fun]; !okT || !tv.IsType() {
+							break
+						}
+						a = ast.Unparen(cv.Args[0])
+					}
+					if id, isID := a.(*ast.Ident); isID && astx.Obj(info, id) == recv {
+						whole = true
+					}
+				}
+			}
+			if !whole {
+				okAll = false
+			}
+		}
+		r.Check(okAll && n >= 1, "C03.K3", fi.Name(), "encodes the whole value on every return", c.P.Pos(fi.Node().Pos()), "return <encoder>(<receiver>)",
+			"the converter the snapshot writer uses returns an encoding of only a part of the value on some path (or no direct encoding of the receiver): the value read back differs from the one saved")
+	}
 	// K3b inverse converter pairs
 	type conv struct{ w, r string }
 	table := []conv{
@@ -665,6 +714,24 @@ func (c *Ctx) c03NickIndex() {
 						}
 					}
 				}
+			}
+			if fi.Name() == "ircserver.(*IRCServer).Unmarshal" {
+				extra := ""
+				for _, cond := range g.CondsAt(v) {
+					if cond.Tag != nil {
+						continue
+					}
+					ast.Inspect(cond.Expr, func(n ast.Node) bool {
+						if se2, isSel := n.(*ast.SelectorExpr); isSel {
+							if fv := astx.FieldSel(info, se2); fv != nil && fv != nickField && fv.Pkg() != nil && fv.Pkg().Path() == pathIrcsrv {
+								extra = astx.Str(cond.Expr)
+							}
+						}
+						return true
+					})
+				}
+				r.Check(extra == "", "C03.K4", fi.Name(), "every restored session with a nickname is indexed", pos, "the rebuild is guarded by the nickname only",
+					"whether a restored session enters the nickname index depends on something else than its nickname ("+extra+"): live code indexes a session as soon as it has a nickname, so after a restore such a session is unreachable by name and its nickname can be taken by somebody else")
 			}
 			r.Check(ok, "C03.K4", fi.Name(), construct, pos, why,
 				"insertion into the nickname index is not dominated by a proof that the nickname is non-empty (live code guards it with IsValidNickname / != \"\"): a session without nickname is indexed under \"\" and WHOIS/PRIVMSG answer differently after a restore")
